@@ -16,6 +16,7 @@ inductive Attempt where
 inductive Ending where
   | drop        -- abrupt loss: the receive loop gets a read error
   | graceful    -- the server sends `</stream:stream>`
+  | wfail       -- the read side still works, the write of the `<a/>` answer to the server's `<r/>` fails
   deriving DecidableEq, Repr
 
 /-- a fault script: the first connection attempt, then for each established connection how it ends and what the
